@@ -29,6 +29,7 @@ type totCase struct {
 	Status  int        `json:"route_status,omitempty"`         // the status route handlers answer with (0 = the implicit 200); any three-digit code is the handler's choice and must not upset the framework (the request logger reads it)
 	BadNF   bool       `json:"failed_notfound_call,omitempty"` // after set-up NotFound(h, "oops") is attempted and fails loudly (recovered): the not-found chain in force stays
 	Wrap    bool       `json:"handler_wrapper,omitempty"`      // a HandlerWrapper is configured that runs the handler it was given and writes what it returns: every route must still run its own handler
+	Fail    string     `json:"handler_failure,omitempty"`      // every route handler fails with this after recording that it ran - index | nilmap | nilptr | string | error - and no Recovery is installed: the failure is the handler's own, it ends the request; the framework starts no second chain and answers nothing on its behalf
 	Reqs    []totReq   `json:"requests"`
 }
 
@@ -158,7 +159,30 @@ func genTotCase(rng *rand.Rand) (*totCase, []string) {
 		c.Reqs = append(c.Reqs, rq)
 		classes = append(classes, cls)
 	}
+	if rng.Intn(8) == 0 {
+		// drawn last, so that every other field of a case is what it was before this field existed
+		c.Fail = []string{"index", "nilmap", "nilptr", "string", "error"}[rng.Intn(5)]
+	}
 	return c, classes
+}
+
+// c07Fail raises the failure a case asks its route handlers for.
+func c07Fail(kind string, i int) {
+	switch kind {
+	case "index":
+		var a []int
+		_ = a[i+1] // runtime.Error: index out of range
+	case "nilmap":
+		var m map[string]int
+		m["k"] = i // runtime.Error: assignment to entry in nil map
+	case "nilptr":
+		var p *totObs
+		p.mw = i // runtime.Error: nil pointer dereference
+	case "string":
+		panic("c07-handler-failure")
+	case "error":
+		panic(fmt.Errorf("c07-handler-failure %d", i))
+	}
 }
 
 type totObs struct {
@@ -257,6 +281,9 @@ func buildTot(c *totCase) *totInstance {
 						sb.WriteString(k + "=" + ctx.Param(k) + ";")
 					}
 					ti.cur.params = sb.String()
+					if c.Fail != "" {
+						c07Fail(c.Fail, i)
+					}
 					if c.Status != 0 {
 						ctx.ResponseWriter().WriteHeader(c.Status)
 					}
@@ -353,6 +380,23 @@ func totVerdict(c *totCase, method string, best *rmodel.Deriv, a1, a2, b totObs)
 			return "" // no body bytes are forwarded for HEAD (C13)
 		}
 		return s
+	}
+	if c.Fail != "" && len(a1.hit) > 0 {
+		// the route handler failed on purpose and nothing is there to recover it: whatever else happens, the
+		// framework must not start another chain or answer on the handler's behalf
+		if c.MW && a1.mw != 1 {
+			return fmt.Sprintf("a route handler failed (%s) and the application middleware ran %d times: %d chains were started", c.Fail, a1.mw, a1.mw)
+		}
+		if len(a1.hit) != 1 || a1.nf != 0 || a1.status != 0 || a1.body != "" {
+			return fmt.Sprintf("a route handler failed (%s, no Recovery installed); afterwards: route handlers run %v, not-found chain %d, status %d body %q - exactly one chain runs and nothing answers in its place", c.Fail, a1.hit, a1.nf, a1.status, a1.body)
+		}
+		if best == nil || a1.hit[0] != best.Form.RouteIdx {
+			return fmt.Sprintf("route #%d ran, the model chooses %v", a1.hit[0], best)
+		}
+		if a1.key() != a2.key() || a1.key() != b.key() || fmt.Sprint(a1.pan) != fmt.Sprint(a2.pan) || fmt.Sprint(a1.pan) != fmt.Sprint(b.pan) {
+			return fmt.Sprintf("a failing route handler: repeating the request gives a different outcome:\n first:   %s (panic %v)\n second:  %s (panic %v)\n rebuilt: %s (panic %v)", a1.key(), a1.pan, a2.key(), a2.pan, b.key(), b.pan)
+		}
+		return ""
 	}
 	if a1.pan != nil {
 		return fmt.Sprintf("serving panicked: %v", a1.pan)
@@ -454,6 +498,9 @@ func judgeTotClasses(w *core.W, c *totCase, classes []string) {
 		w.Count("class:" + cls + "/" + chain)
 		w.Count("method:" + mcls + "/" + chain)
 		w.Count("nf:" + c.NF)
+		if c.Fail != "" && chain == "route" {
+			w.Count("route-handler-failed-without-recovery")
+		}
 		if c.MW {
 			w.Count("with-app-middleware")
 		} else {
@@ -469,8 +516,8 @@ func judgeTotClasses(w *core.W, c *totCase, classes []string) {
 }
 
 func runC07(r *core.Run) {
-	r.Rule("valid route sets (1-8 routes of all kinds over 1-3 methods) x 30 hostile requests each: path classes {empty, slashes only, trailing slash, inner empty segments, bad escapes, non-UTF-8 / NUL, long (100-5000 segments or a 10^4-10^5 byte segment), random bytes, exact instance, near miss}; method tokens (the nine known, lower-case, empty, padded, NUL / non-UTF-8 bytes, BREW, 300 bytes; one request in twelve re-splits the bytes of method+path at another place); odd header sets, no header map at all, a Host, RequestURI in asterisk / absolute / junk form; a quarter of the routes header-constrained and earlier paths re-requested with other header sets; default and custom not-found chain (one case in six with a later NotFound call that fails loudly and must leave the chain in force untouched); with and without application middleware; route handlers answering with the implicit 200 or one status from 201..999 (the request logger, installed in a quarter of the cases, reads it). Oracle: recover() around ServeHTTP, counting middleware (exactly one chain), the reference model for which chain, and equality of (chain, status, body, parameters) when the request is repeated on the same instance and on an identically rebuilt one that serves the request list in reverse order. non-trivial = distinct (route set, method class, path class, chain kind, not-found kind)")
-	r.Assume("req.URL is non-nil (net/http's contract); handlers are deterministic and do not panic")
+	r.Rule("valid route sets (1-8 routes of all kinds over 1-3 methods) x 30 hostile requests each: path classes {empty, slashes only, trailing slash, inner empty segments, bad escapes, non-UTF-8 / NUL, long (100-5000 segments or a 10^4-10^5 byte segment), random bytes, exact instance, near miss}; method tokens (the nine known, lower-case, empty, padded, NUL / non-UTF-8 bytes, BREW, 300 bytes; one request in twelve re-splits the bytes of method+path at another place); odd header sets, no header map at all, a Host, RequestURI in asterisk / absolute / junk form; a quarter of the routes header-constrained and earlier paths re-requested with other header sets; default and custom not-found chain (one case in six with a later NotFound call that fails loudly and must leave the chain in force untouched); with and without application middleware; route handlers answering with the implicit 200 or one status from 201..999 (the request logger, installed in a quarter of the cases, reads it); one case in eight has route handlers that fail (runtime errors, a string, an error value) with no Recovery installed - the failure ends the request, the framework starts no second chain and answers nothing in the handler's place. Oracle: recover() around ServeHTTP, counting middleware (exactly one chain), the reference model for which chain, and equality of (chain, status, body, parameters) when the request is repeated on the same instance and on an identically rebuilt one that serves the request list in reverse order. non-trivial = distinct (route set, method class, path class, chain kind, not-found kind)")
+	r.Assume("req.URL is non-nil (net/http's contract); handlers are deterministic; they do not panic except in the cases that say so (handler_failure)")
 	c07Canaries(r)
 	n := r.N(10000, 800000)
 	r.Parallel("tot", n, func(w *core.W, rng *rand.Rand, i int) {
@@ -487,6 +534,7 @@ func runC07(r *core.Run) {
 	for _, k := range []string{"method:unknown-method/not-found", "method:known-method/route", "nf:default", "nf:custom", "with-app-middleware", "without-app-middleware"} {
 		r.GateCounter(k, 100)
 	}
+	r.GateCounter("route-handler-failed-without-recovery", 500)
 	r.Gate("distinct_nontrivial", r.NonTrivialCount(), 5000)
 }
 
@@ -502,4 +550,9 @@ func c07Canaries(r *core.Run) {
 	diff.body = "x"
 	r.Canary("repeat differs", totVerdict(c, "GET", nil, ok, diff, ok) != "")
 	r.Canary("rebuilt instance differs", totVerdict(c, "GET", nil, ok, ok, diff) != "")
+	cf := &totCase{NF: "default", MW: true, Fail: "index"}
+	failed := totObs{mw: 1, hit: []int{0}, pan: "runtime error: index out of range"}
+	answered := failed
+	answered.mw, answered.status, answered.body, answered.pan = 2, 404, "404 page not found\n", nil
+	r.Canary("a second chain after a failed handler", totVerdict(cf, "GET", nil, answered, answered, answered) != "")
 }
